@@ -518,7 +518,8 @@ class TRIADk(SingleFrame):
         return Z_DN, W.mref_from_dip('y', dip)
 
     def ctor_kwargs(self, p, dt, dip):
-        return {'representation': p.get('representation', 'rotmat'), 'frame': self._frame(p), 'v2': float(dip)}
+        return {'representation': p.get('representation', 'rotmat'), 'frame': self._frame(p),
+                'v2': [float(x) for x in self.refs(p, dip)[1]]}
 
     def batch(self, p, dt, dip, gyr, acc, mag):
         o = _f().TRIAD(acc, mag, **self.ctor_kwargs(p, dt, dip))
